@@ -24,8 +24,14 @@ THEOREMS = (
     "extraOf_mute", "extraOf_posOff",
     # declaration order
     "select_perm_partial", "itemsOfState_strip", "select_programme_lowest_id", "select_programme_order_independent",
+    "select_perm_objects", "select_perm_objects_rename", "renameObjects_renamed", "itemsOfState_rename",
+    "selectComplementary_ok_iff",
+    # re-numbering the format part (packs / channels / trackUIDs / stream+track formats)
+    "select_perm_formats_partial", "select_perm_formats_rename_partial", "renameFormats_renamed",
+    "fmtRenamed_selectPackMapping", "fmtRenamed_itemsOfState", "valid_rename", "allocWF_of_check",
+    "FmtRenamed.wrappedPacks", "FmtRenamed.outputOf", "FmtRenamed.matrixSpec", "FmtRenamed.itemsOfPack",
     # modes
-    "chna_only_all_tracks", "no_programme_all_roots", "mem_rootObjects",
+    "chna_only_all_tracks", "chna_only_problem", "no_programme_all_roots", "mem_rootObjects",
 )
 
 
@@ -81,23 +87,25 @@ class C06(Spec):
     theorems = tuple("Earverif.Adm." + t for t in THEOREMS)
     trusted_base = (
         "model Earverif/Model/Adm.lean + SelectItems.lean is a hand transliteration of select_items.py / utils.py / "
-        "hoa.py over index-based documents; validate_structure is not modelled (documents are assumed valid)",
-        "pack_allocation.allocate_packs is not modelled: the model computes the allocation only for documents where "
-        "each track's (channel format, pack format) determines its slot (C07 covers the allocator); Matrix packs are "
-        "outside the model",
+        "hoa.py / matrix.py over index-based documents; validate_structure and validate_selected_audioTrackUID are "
+        "not modelled (documents are assumed valid)",
+        "pack_allocation.allocate_packs is the C07 model (Earverif/Model/PackAlloc.lean, imported); identities of "
+        "AllocationPack objects are modelled as 3*root+variant, of AllocationTrackUID objects as their position",
         "harness/c06_gen.py: serialisation of the real ADM by index (unused common-definition packs/channels are "
-        "pruned), canonicalisation of RenderingItems, labels for screens/position offsets/block formats",
+        "pruned), canonicalisation of RenderingItems and track spec trees, labels for screens/position offsets/"
+        "block formats",
     )
     assumptions = (
         "documents pass validate_structure (no audioObject loops, pack/channel multitree, object parameters only in "
-        "leaves, consistent alternativeValueSet references); reference lists contain no duplicates",
+        "leaves, consistent alternativeValueSet references, well-formed matrix packs); reference lists contain no "
+        "duplicates",
         "audioProgramme ids are distinct fixed-width strings (string order = numeric order)",
-        "no Matrix packs; allocations are unambiguous (one compatible slot per track)",
+        "every selected audioTrackUID has a track index, a pack reference and a channel format",
     )
     rule = (
         "scene model: 0..3 programmes x 0..3 contents x 0..8 objects in a DAG with shared sub-objects x 0..2 "
         "complementary groups and selections x 1..6 formats (Objects/DirectSpeakers/HOA; mono, multichannel, nested "
-        "packs 2-3 deep; BS.2094 common-definition packs) x silent tracks x track->trackFormat / track->channelFormat "
+        "packs 2-3 deep; BS.2094 common-definition packs; direct and encode/decode Matrix packs in their 5 usages) x silent tracks x track->trackFormat / track->channelFormat "
         "referencing x alternativeValueSets x CHNA-only and programme-less modes; every scene is also re-declared in 3 "
         "random orders; a case is one (scene, declaration order); non-trivial = at least one item selected; "
         "distinct by canonical item list"
@@ -117,11 +125,15 @@ class C06(Spec):
             ctx.count("complementary-selection-nonempty")
         if scene["common"]:
             ctx.count("common-definitions")
+        for u in b.matrix_usages:
+            ctx.count("matrix-usage:" + u)
         paths = Counter()
         for r in recs:
             ctx.count("item-kind:%d" % r["kind"])
-            if "s" in r["tracks"]:
+            if "S" in r["tracks"]:
                 ctx.count("item-with-silent-track")
+            if any(t.startswith("G(") for t in r["tracks"]):
+                ctx.count("item-with-matrix-track-spec")
             if any(len(p.audioPackFormats) > 1 for p in r["paths"]):
                 ctx.count("item-nested-pack-path")
             p0 = r["paths"][0]
@@ -239,6 +251,8 @@ class C06(Spec):
                 inj = "absdist-conflict"
             elif r < 0.09:
                 inj = "extra-silent"
+            elif r < 0.15:
+                inj = "alloc-stress"
             sc = G.gen_scene(ctx.rng, inject=inj)
             if inj:
                 ctx.count("scene-with-injected-error:" + inj)
@@ -375,26 +389,28 @@ class C06(Spec):
 SPEC = C06()
 
 REGISTRY = dict(
-    text="PARTIAL: Lean theorems over a transliterated model of select_rendering_items (Earverif.Adm.*): "
-    "select_eq_spec (generator pipeline = comprehension over programme contents / root objects / object paths / "
-    "allocated channels, including rejected documents), select_once_per_path + specStates_nodup + mem_specStates_iff "
-    "(items naming one (programme, content, object path) are that state's items exactly once; states = chains of "
-    "sub-object references under acyclicity), select_excludes_ignored + mem_ignored_iff, extra_data_from_own_path / "
-    "importance_from_own_path + one lemma per ExtraData field, select_programme_lowest_id / "
-    "select_programme_order_independent, chna_only_all_tracks, no_programme_all_roots, and select_perm_partial "
-    "(re-ordering programme->content, content->object and object->sub-object reference lists permutes the items). "
-    "Left to correspondence + search (not proved): independence from the declaration order of the audioObject / "
-    "audioPackFormat / audioChannelFormat / audioTrackUID lists and of an object's pack/track reference lists; the "
-    "track-to-channel allocation itself (modelled only where each track has one compatible slot; C07); Matrix packs; "
-    "validate_structure. The model is tied to the code on every run: generated scenes are built as real ADM "
-    "documents, serialised by index to the Lean driver, and canonical items compared in order for the document and "
-    "3 re-declarations; the direct predicate compares the real items with an independent comprehension oracle and "
-    "across re-declarations as multisets.",
-    note="Trusted: Lean kernel; hand transliteration of select_items.py/utils.py/hoa.py + correspondence harness "
-    "(index serialisation, canonicalisation, labels for screens/offsets/blocks); validate_structure and "
-    "allocate_packs are outside the model. Quantifier limits: valid documents, no Matrix packs, unambiguous "
-    "allocations, distinct fixed-width programme ids.",
-    technique="Lean 4 proof (list comprehension equalities, Nodup/Perm) about a transliterated model + differential "
-    "correspondence with the real select_rendering_items + oracle search",
+    text="PARTIAL: Lean theorems over a transliterated model of select_rendering_items (Earverif.Adm.*; allocation = "
+    "the C07 allocator model, Matrix packs included): select_eq_spec (generator pipeline = comprehension over "
+    "programme contents / root objects / object paths / allocated channels, including rejected documents), "
+    "select_once_per_path + specStates_nodup + mem_specStates_iff, select_excludes_ignored + mem_ignored_iff, "
+    "extra_data_from_own_path / importance_from_own_path + one lemma per ExtraData field, "
+    "select_programme_lowest_id / select_programme_order_independent, chna_only_all_tracks, no_programme_all_roots. "
+    "Declaration-order independence: select_perm_partial (re-ordering programme->content, content->object, "
+    "object->sub-object reference lists), select_perm_objects(_rename) (re-numbering the audioObjects with all "
+    "references remapped: same items up to Perm, object paths renamed, success preserved), "
+    "select_perm_formats(_rename)_partial (re-numbering audioPackFormats / audioChannelFormats / audioTrackUIDs / "
+    "stream+track formats: items equal up to Perm and renaming, via C07 uniqueness of the valid allocation). "
+    "Left to correspondence + search (not proved): for the format re-numbering, that selection succeeds on the "
+    "re-numbered document whenever it does on the original, and CHNA-only mode; re-ordering of an object's "
+    "pack/track reference lists; re-numbering of contents/programmes; validate_structure. The model is tied to the "
+    "code on every run: generated scenes (incl. Matrix packs and ambiguous/conflicting allocations) are built as "
+    "real ADM documents, serialised by index to the Lean driver, and canonical items (incl. nested track specs) "
+    "compared in order for the document and 3 re-declarations; the direct predicate compares the real items with an "
+    "independent comprehension oracle and across re-declarations as multisets.",
+    note="Trusted: Lean kernel; hand transliteration of select_items.py/utils.py/hoa.py/matrix.py + C07 allocator model "
+    "+ correspondence harness (index serialisation, canonicalisation, labels); validate_structure is outside the "
+    "model. Quantifier limits: valid documents, distinct fixed-width programme ids.",
+    technique="Lean 4 proof (list comprehension equalities, Nodup/Perm, renaming equivariance, C07 uniqueness) about a "
+    "transliterated model + differential correspondence with the real select_rendering_items + oracle search",
     design_ref="DESIGN.md section 4, C06",
 )
